@@ -177,7 +177,9 @@ def main(argv=None):
                     kk['count'] += k['count']
                 for v in st.get('violations', []):
                     replays_attempted += 1
-                    res = run_worker(prop, n, impl, 0, 1, t.get('params', {}), 0, 0, 0, [], env,
+                    # replayed with the open known signatures, so that a Collector-using harness reports
+                    # the same first non-listed deviation as under the engine (not an earlier listed one)
+                    res = run_worker(prop, n, impl, 0, 1, t.get('params', {}), 0, 0, 0, open_sigs, env,
                                      replay=v['args'])
                     if res.get('reproduced'):
                         replays_reproduced += 1
